@@ -169,7 +169,91 @@ def c17(ctx):
     return _writers(ctx, "C17", modes, 6000 if ctx.quick() else 80000)
 
 
+# ---------------------------------------------------------------------------
+# C16  a storage failure at any step leaves log valid and managed refs consistent
+
+FAULT_DEVS = {"FirstCommitNotRolledBack", "ReconcileStagingNoRollback"}
+
+
+def c16(ctx):
+    known, asbuilt = devsets("C16")
+    asbuilt = (asbuilt & FAULT_DEVS) | known
+    model_check(ctx, "MC_Faults", dict(constants={"Dev": set()}, invariants=["PostConditions"]), workers=4, timeout=1800)
+    seeds = [ctx.seed] if ctx.quick() else [ctx.seed, ctx.seed + 1, ctx.seed + 2]
+    trace = os.path.join(ctx.scratch, "trace.ndjson")
+    n = 0
+    with open(trace, "w") as f:
+        for sd in seeds:
+            out = os.path.join(ctx.scratch, "ft_%d.ndjson" % sd)
+            run_vh(ctx, ["faults", "-out", out, "-seed", sd])
+            for r in read_ndjson(out):
+                n += 1
+                r["id"] = n
+                f.write(json.dumps(r, separators=(",", ":")) + "\n")
+    cls = validate_trace(ctx, "Trace_Faults", trace, {"Known": known, "AsBuilt": asbuilt}, shards=4)
+    lines = {r["id"]: r for r in read_ndjson(trace)}
+    tally = Tally(ctx)
+    for rec in cls:
+        r = rec["r"]
+        ln = lines[rec["id"]]
+        item = None
+        if r["cls"] != "conform":
+            item = {"op": ln["op"], "start": ln["start"], "kind": ln["kind"], "call": ln["call"], "err": ln["err"],
+                    "retryErr": ln["retryErr"], "post": ln["post"], "retry_msg": ln.get("msg", ""), "why": r.get("why")}
+        tally.add(r["cls"], item, dev=r.get("dev"),
+                  nontrivial_key=(ln["op"], ln["start"], ln["kind"], ln["call"]["n"]) if rec["nontrivial"] else None)
+    sample = lines[min(5, n)]
+    samples = [{"op": sample["op"], "start": sample["start"], "kind": sample["kind"], "call": sample["call"],
+                "post": sample["post"]["st"]}]
+    return finish(ctx, tally, samples=samples, traces=len(cls), exhaustive=True,
+                  assumptions=["faults are injected and crashes emulated at the gitstore.Storer boundary of the harness' "
+                               "in-memory store: every call index of every (operation, start state) of the matrix",
+                               "a crash parks the operation forever after call k (no deferred function runs); the state is "
+                               "re-read through a fresh handle",
+                               "verification verdicts after a crash are not yet compared (log validity and whole-entry "
+                               "prefix conditions are)"])
+
+
+# ---------------------------------------------------------------------------
+# C05  thresholds count distinct trusted principals, each with a distinct valid key
+
+def c05(ctx):
+    quick = ctx.quick()
+    cfgs = [dict(NP=2, KeyPool={"k1", "k2", "k3"}, MaxThr=3, EmitMod=1, EmitRes=0),
+            dict(NP=3, KeyPool={"k1", "k2", "k3"}, MaxThr=4, EmitMod=23 if quick else 5, EmitRes=ctx.seed % (23 if quick else 5))]
+    if not quick:
+        cfgs.append(dict(NP=3, KeyPool={"k1", "k2", "k3", "k4"}, MaxThr=5, EmitMod=97, EmitRes=ctx.seed % 97))
+    scns = []
+    for c in cfgs:
+        mc = model_check(ctx, "MC_Signatures", dict(constants=c, invariants=["Refines"], constraints=["Emit"]), timeout=7200)
+        scns += [r for r in mc.records if r.get("t") == "SCN"]
+    if not scns:
+        raise Infra("TLC emitted no scenarios")
+    scn_path = os.path.join(ctx.scratch, "scn.ndjson")
+    write_ndjson(scn_path, scns)
+    trace = os.path.join(ctx.scratch, "trace.ndjson")
+    run_vh(ctx, ["signatures", "-scn", scn_path, "-out", trace, "-seed", ctx.seed, "-n", 1 if quick else 3])
+    cls = validate_trace(ctx, "Trace_Signatures", trace, {"Known": set(), "AsBuilt": set()})
+    lines = None
+    tally = Tally(ctx)
+    for rec in cls:
+        r = rec["r"]
+        item = None
+        if r["cls"] != "conform":
+            if lines is None:
+                lines = {x["id"]: x for x in read_ndjson(trace)}
+            item = {"id": rec["id"], "why": r.get("why"), "scn": lines[rec["id"]]["scn"], "obs": lines[rec["id"]]["obs"]}
+        tally.add(r["cls"], item, nontrivial_key=rec["id"] if rec["nt"] else None)
+    return finish(ctx, tally, samples=[scns[len(scns) // 3], scns[-1]], traces=len(cls),
+                  assumptions=["rules are materialised as signed tufv02 metadata with Person principals; signatures are real "
+                               "sshsig signatures made in-process with deterministic ed25519 keys; the iteration order of "
+                               "principals inside gittuf (Go map order) is left to the runtime and matched existentially",
+                               "GPG and Sigstore key types are not concretised"])
+
+
 CHECKS = {
+    "C05": c05,
+    "C16": c16,
     "C03": c03,
     "C17": c17,
     "C14": c14,
